@@ -1,11 +1,11 @@
 import sys, ast, glob, os
-sys.path.insert(0, '/root/scratch/proto')
+
 from absint import *
 from origdom import *
 ROOT = os.environ.get('DIMROOT', '/repo')
 
 def run_node(modname, node, params, name=None, summaries=None):
-    repo = Repo(ROOT); dom = OriginDomain(); dom.repo_summaries = summaries or {}
+    repo = ARepo(ROOT); dom = OriginDomain(); dom.repo_summaries = summaries or {}
     it = Interp(repo, dom); it.tolerant = True
     mod = repo.module(modname)
     f = FuncRef(mod, node, name=name or node.name)
@@ -50,7 +50,7 @@ for modname, fn, ps in [
     ('magpylib._src.fields.field_BH_cylinder_segment', 'BHJM_cylinder_segment_internal', ['observers', 'polarization', 'dimension']),
 ]:
     for field in 'BH':
-        repo = Repo(ROOT); mod = repo.module(modname)
+        repo = ARepo(ROOT); mod = repo.module(modname)
         out, dom, it = run_node(modname, mod.funcs[fn], dict(field=Const(field), **{p: O({'P:' + p}) for p in ps}))
         muts = sorted({(x[0], x[1].split('>')[-1], x[3]) for x in dom.mutations})
         print(f"  {fn}/{field}: returns {out}; mutates {muts if muts else 'nothing'}; skipped={len(getattr(it,'skipped',[]))}")
@@ -59,7 +59,7 @@ print("=== T3 functional interface: what reaches getBH_level1 from getBH_dict_le
 def spy(d, args, kwargs, node):
     print("    getBH_level1 receives:", {k: (sorted(org_of(v)) if not isinstance(v, Const) else 'const') for k, v in kwargs.items()})
     return FRESH
-repo = Repo(ROOT); mod = repo.module('magpylib._src.fields.field_wrap_BH')
+repo = ARepo(ROOT); mod = repo.module('magpylib._src.fields.field_wrap_BH')
 out, dom, it = run_node('magpylib._src.fields.field_wrap_BH', mod.funcs['getBH_dict_level2'],
     dict(source_type=Const('Tetrahedron'), observers=O({'P:observers'}), field=Const('B'), vertices=O({'P:vertices'}), polarization=O({'P:polarization'})),
     summaries={'getBH_level1': spy})
